@@ -59,7 +59,8 @@ def run_form_case(case: dict) -> dict:
     """Worker side: define the class, construct once."""
     if case["form"] == "fn":
         fc = {"form": "fn", "params": [{"name": f["name"], "hint": f["hint"]} for f in case["fields"]], "args": case["values"],
-              "provider": None, "ret": None, "retval": None, "positional": [f["name"] for f in case["fields"]][: case.get("npos", 0)]}
+              "provider": None, "ret": None, "retval": None, "positional": [f["name"] for f in case["fields"]][: case.get("npos", 0)],
+              "kw_order": list(case.get("order") or [])}
         if "enabled" in case:
             fc["enabled"] = case["enabled"]
         return I.run_fn_case(fc)
